@@ -34,7 +34,7 @@ const c16SplitRule = "(a) MultiReaderAt: every piece-size vector (1..4 pieces, e
 	"(b) NewSplitCarReader over pieces of <=3 in-memory (and on-disk) files = own header ‖ content ‖ tail, original header taken from the metadata, same read matrix, " +
 	"reference = uvarint(len(header)) ‖ header ‖ contents; " +
 	"(c) the real split-car action on generated epoch CARs for every --size at a cumulative block-DAG boundary -1/0/+1 (plus 0, 1, huge): every block DAG byte-identical, in order, inside exactly one piece; " +
-	"HeaderSize/ContentSize of the written YAML delimit exactly the piece header and the DAG bytes in the written files; reading the written pieces through NewSplitCarReader gives original header ‖ DAG bytes. " +
+	"HeaderSize/ContentSize of the written YAML delimit exactly the piece header and the DAG bytes in the written files; reading the written pieces through NewSplitCarReader gives original header ‖ DAG bytes; the CSV's file-size column equals the size of each written file and the repository's own local piece reader (NewFileSplitCarReader) accepts the written pieces with the written metadata; merge-cars over the written pieces yields the nul-root header followed by every piece's body, nothing lost. " +
 	"Per read the oracle demands: bytes returned = reference bytes; count = min(length, bytes available); nil error when the range ends before the true end; " +
 	"a non-nil error (io.EOF expected) when the range passes the true end; a range ending exactly at the true end may return nil or io.EOF with the full count (io.ReaderAt allows both); " +
 	"zero-length reads at or after the true end may return nil or io.EOF, before the end they must return nil. " +
@@ -325,6 +325,42 @@ func c16RunSplit(base string, sh c16Shape, g *c16Truth, carPath string, size int
 		contents = append(contents, fb[cf.HeaderSize:cf.HeaderSize+cf.ContentSize])
 		res.tailBytes += len(fb) - int(cf.HeaderSize+cf.ContentSize)
 	}
+	// ---- merge-cars over the written pieces: a header with the nul root followed by everything after each
+	// piece's own header, nothing lost (the counterpart of split-car; cmd-merge-cars.go is an anchor of C16)
+	{
+		var wantMerged []byte
+		wantMerged = append(wantMerged, nulRootCarHeader...)
+		var paths []string
+		for _, cf := range mp.CarPieces {
+			fb, err := os.ReadFile(cf.Name)
+			if err != nil || cf.HeaderSize > uint64(len(fb)) {
+				wantMerged = nil
+				break
+			}
+			wantMerged = append(wantMerged, fb[cf.HeaderSize:]...)
+			paths = append(paths, cf.Name)
+		}
+		if wantMerged != nil {
+			merged := filepath.Join(dir, "merged.car")
+			mapp := &cli.App{Name: "faithful-cli", Commands: []*cli.Command{newCmd_MergeCars()}, Writer: io.Discard, ErrWriter: io.Discard, ExitErrHandler: func(*cli.Context, error) {}}
+			var merr error
+			var mpv interface{}
+			func() {
+				defer func() { mpv = recover() }()
+				merr = mapp.Run(append([]string{"faithful-cli", "merge-cars", "-o", merged}, paths...))
+			}()
+			got, _ := os.ReadFile(merged)
+			switch {
+			case mpv != nil:
+				bad("merge-panics", "merge-cars", "merge-cars over the %d written pieces panicked: %v", len(paths), mpv)
+			case merr != nil:
+				bad("merge-fails", "merge-cars", "merge-cars over the %d written pieces failed: %v", len(paths), merr)
+			case !bytes.Equal(got, wantMerged):
+				bad("merge-loses-bytes", "merge-cars", "merge-cars over the %d written pieces reported success; its output has %d bytes, header + the pieces' bodies are %d bytes", len(paths), len(got), len(wantMerged))
+			}
+			os.Remove(merged)
+		}
+	}
 	// ---- every block DAG inside exactly one piece, byte-identical, original order
 	var joined []byte
 	ok := true
@@ -501,6 +537,7 @@ func c16RunSplit(base string, sh c16Shape, g *c16Truth, carPath string, size int
 			return splitcarfetcher.NewFileSplitCarReader(cf.Name)
 		})
 		if strings.HasPrefix(fmsg, "rejected") {
+			bad("own-pieces-rejected", "NewFileSplitCarReader", "the repository's local piece reader refuses the pieces split-car has just written, with the metadata it has just written: %s", fmsg)
 			fmsg = "rejected (file size != headerSize+contentSize)"
 		}
 		res.fileReader = fmsg
@@ -525,6 +562,9 @@ func c16RunSplit(base string, sh c16Shape, g *c16Truth, carPath string, size int
 			}
 		}
 		res.csvDiffer = differ
+		if differ > 0 {
+			bad("csv-file-size", "metadata.csv", "the 'file size' column of the metadata CSV differs from the size of the written file for %d of %d pieces", differ, same+differ)
+		}
 		res.csvSizes = fmt.Sprintf("csv file-size column equals the file size for %d pieces, differs for %d", same, differ)
 	}
 	return
@@ -645,7 +685,7 @@ func TestVerif_C16_Split(t *testing.T) {
 			}
 			if res.fileReader != "" && res.fileReader != "ok" && !notedFile {
 				notedFile = true
-				R.Note("observation (not judged): splitcarfetcher.NewFileSplitCarReader + NewSplitCarReader on the pieces split-car has just written: %s", res.fileReader)
+				R.Note("splitcarfetcher.NewFileSplitCarReader + NewSplitCarReader on the pieces split-car has just written: %s", res.fileReader)
 			}
 			if res.fileReader != "" {
 				R.Add("local_file_reader:"+res.fileReader, 1)
@@ -658,7 +698,7 @@ func TestVerif_C16_Split(t *testing.T) {
 			}
 			if res.csvDiffer > 0 && !notedCsv {
 				notedCsv = true
-				R.Note("observation (not judged, the CSV is outside the statement): the 'file size' column of the metadata CSV differs from the size of the written file (it omits the subset/epoch node); counter csv_file_size_differs_from_file")
+				R.Note("the 'file size' column of the metadata CSV differs from the size of the written file (it omits the subset/epoch node); counter csv_file_size_differs_from_file")
 			}
 			if idx%41 == 0 {
 				R.Sample(map[string]interface{}{"part": "c", "shape": p.sh.Name, "size": size, "blocks_per_piece": res.pieces})
